@@ -439,6 +439,33 @@ theorem reaction_line_spec (pr : Printer) (rxn : List Char) (p : Param) (ptext :
 theorem default_precisions_guard : defaultPrecision = 5 ∧ defaultUncertPrecision = 2 ∧ strMagnitudePrecision = 3 := by
   decide
 
+/-! ## falsy and carried uncertainties -/
+
+/-- **falsy_uncertainty_spec** (behaviour as coded: `uncertainty or getattr(number, "uncertainty", None)`).
+* an explicit uncertainty that is zero (falsy) with nothing carried by the number: the PLAIN form is printed and an int `fmt = p ≥ 0`
+  is read as *significant digits* (`number_to_scientific_latex(1.234567, 0.0, fmt=2)` = `1.2`);
+* an explicit zero falls through to the uncertainty the number carries;
+* a carried zero (an `UncertainQuantity` with uncertainty 0) is NOT treated as "no uncertainty": `_float_str_w_uncert` is called and
+  refuses with ValueError (`log10(0)`);
+* a non-zero explicit uncertainty always wins. -/
+theorem falsy_uncertainty_spec (f : Fmt) (p : ℕ) (mag : ℚ) (unit : Option (List Char)) :
+    numberToXAny f (some p) mag (some 0) none unit = numberToX f (some p) mag unit ∧
+    numberToXAny f none mag (some 0) none unit = numberToX f none mag unit ∧
+    (∀ c, numberToXAny f (some p) mag (some 0) (some c) unit = numberToXAny f (some p) mag none (some c) unit) ∧
+    (∀ e, numberToXAny f (some p) mag e (some 0) unit = .error "ValueError" ∨ (∃ u, e = some u ∧ u ≠ 0)) ∧
+    (∀ u c, u ≠ 0 → numberToXAny f (some p) mag (some u) c unit = numberToXUncert f (some p) mag u unit) := by
+  refine ⟨?_, ?_, ?_, ?_, ?_⟩
+  · simp [numberToXAny, effectiveUncertainty]
+  · simp [numberToXAny, effectiveUncertainty]
+  · intro c; simp [numberToXAny, effectiveUncertainty]
+  · intro e
+    rcases e with _ | u
+    · left; simp [numberToXAny, effectiveUncertainty, numberToXUncert, floatStrWUncert]; rfl
+    · by_cases hu : u = 0
+      · left; subst hu; simp [numberToXAny, effectiveUncertainty, numberToXUncert, floatStrWUncert]; rfl
+      · right; exact ⟨u, rfl, hu⟩
+  · intro u c hu; simp [numberToXAny, effectiveUncertainty, hu]
+
 /-! ## `fmt` given as a callback -/
 
 /-- **callback_text_spec.** With a callable `fmt` the text `T` the callback returned is post-processed exactly like `%g` output:
@@ -535,6 +562,12 @@ example : floatStrWUncert (-999752) 349 3 = .ok "-999752(349)".toList ∧
 example : perSubstanceTable [("H2O".toList, "H<sub>2</sub>O".toList), ("H+".toList, "H<sup>+</sup>".toList)]
     (.positional [⟨277 / 5, some "M".toList⟩, ⟨35 / 10, some "mM".toList⟩]) "c".toList
     = .ok "<table><tr><th>Substance</th>\n<th>c</th></tr>\n<tr><td>H<sub>2</sub>O</td>\n<td>55.4 M</td></tr>\n<tr><td>H<sup>+</sup></td>\n<td>3.5 mM</td></tr></table>".toList := by
+  decide +kernel
+
+/-- explicit zero uncertainty → plain form with `fmt` as significant digits; carried zero → ValueError -/
+example : numberToXAny .latex (some 2) (1234567 / 1000000) (some 0) none none = .ok "1.2".toList ∧
+    numberToXAny .latex (some 2) (1234567 / 1000000) none (some 0) none = .error "ValueError" ∧
+    numberToXAny .unicode (some 1) (31416 / 10000) (some 0) (some (29 / 1000)) (some "m".toList) = .ok "3.14(3) m".toList := by
   decide +kernel
 
 /-- callbacks: `'%.1e' % 1e5` → bare power (the `"1.0"` spelling), `'%.2f'` text unchanged + unit, malformed texts refused -/
